@@ -12,13 +12,13 @@ import c16
 PROPERTY = 'C02'
 MANIFEST = {
  'level_text': 'Lean 4 theorems, kernel-checked, about a model of every command through which IRC users change accounts, capabilities, channel capabilities, ignores and default capabilities (register, unregister, changename, identify, unidentify, hostmask add/remove, set password/secure, admin capability add/remove, channel capability add/remove/set/unset/setdefault, channel enable/disable, admin ignore add/remove, owner defaultcapability, config supybot.capabilities) with arguments ranging over all strings, composed with the proved model of the database files (C16) and with explicit events for everything that writes or reads them: flush+reload, a reload that reads the files as they are (SIGHUP, config reload), world.flush, the periodic upkeep with supybot.flush on or off, and the order in which Python wrote the capability sets. Proved: a step - a private message or one sent in a channel - never enlarges the owner set and changes anything only if the command gate let the sender pass (admin_gate: never a sender to whom -admin applies); a capability appears on an account only through a capability-add command whose guard held for the caller, and then it is the capability named; a reload of either kind never enlarges any capability set; by induction, over every finite history of all these events - commands acknowledged or failing half-way, loads completing or stopping at any record - the owners stay among the initial ones (history_owner_safe_ev), and under the stated run condition the saved file never holds a capability memory has dropped (history_safe_all_ev) and every capability held at the end was held at the beginning or was granted at some point of the history by a sender for whom the guard of the add command held and whom the command gate let pass (history_caps_entitled); the channels file never differs from the channels in memory as long as channel loads complete (history_chanAgree_ev: every command saves what it changes - true since repair 92c8e54, which this invariant led to). The model is tied to /repo by a differential run against a live bot (full state compared after every event, the saved files compared with the model\'s at every reload) that also evaluates the property statement on the implementation.',
- 'level_note': 'Trusted: Lean kernel; axioms propext/Classical.choice/Quot.sound only; this harness (generators bound what the correspondence sees); C03.Model for capability decisions and C16.Model for the file format (each with its own correspondence check); harness/extractors/capsites.py and wrapspecs.py (the 18 capability-mutation call sites and the wrap() converter lists of the 21 modelled commands, regenerated from the source and matched against Cmd at build time). Modelled: bodies and converters of the listed commands with every argument explicit, sent privately or in a channel (channel-qualified command gate with the channel\'s defaultAllow, the private converter, the op converter taking the channel from the message), ignores, setUser (incl. hostmaskPatternsIntersect)/newUser/delUser with the in-place mutation that survives a refused setUser, IrcUser.addAuth/clearAuth, timeoutIdentification 0 or non-zero with the clock jumping past it (Ev.expire: all logins made so far are gone), the saved users/channels/ignores files as records, IrcUserCreator.u / IrcChannelCreator.name carried from a stopped load into the next. Parameters: saltHash (a line-safe stand-in), the written order of capability sets (environment event, accepted only as a permutation, checked in Lean). Run condition of history_safe_all_ev only (not of history_owner_safe_ev): a capability-changing command that is not acknowledged left the state alone; the harness reports whether the implementation met it. Not modelled: the tokenizer (arguments are arbitrary strings; C13), how a channel message is recognised as addressed to the bot and nested commands (C01/C14), caches (C04), gpg, commands of owners, conf.supybot.databases.* (they choose file names, not when files are written).',
+ 'level_note': 'Trusted: Lean kernel; axioms propext/Classical.choice/Quot.sound only; this harness (generators bound what the correspondence sees); C03.Model for capability decisions and C16.Model for the file format (each with its own correspondence check); harness/extractors/capsites.py and wrapspecs.py (the 18 capability-mutation call sites and the wrap() converter lists of the 21 modelled commands, regenerated from the source and matched against Cmd at build time). Modelled: bodies and converters of the listed commands with every argument explicit, sent privately or in a channel (channel-qualified command gate with the channel\'s defaultAllow, the private converter, the op converter taking the channel from the message), ignores, setUser (incl. hostmaskPatternsIntersect)/newUser/delUser with the in-place mutation that survives a refused setUser, IrcUser.addAuth/clearAuth, timeoutIdentification 0 or non-zero with the clock jumping past it (Ev.expire: all logins made so far are gone), stop and start of the bot (Ev.restart: world.flush, nothing left in the reader classes, databases read), the saved users/channels/ignores files as records, IrcUserCreator.u / IrcChannelCreator.name carried from a stopped load into the next. Parameters: saltHash (a line-safe stand-in), the written order of capability sets (environment event, accepted only as a permutation, checked in Lean). Run condition of history_safe_all_ev only (not of history_owner_safe_ev): a capability-changing command that is not acknowledged left the state alone; the harness reports whether the implementation met it. Not modelled: the tokenizer (arguments are arbitrary strings; C13), how a channel message is recognised as addressed to the bot and nested commands (C01/C14), caches (C04), gpg, commands of owners, conf.supybot.databases.* (they choose file names, not when files are written).',
  'technique': 'Lean 4 proof (case analysis over commands, invariant over histories, reader-machine invariant for reload) + differential correspondence against a live bot',
  'design_ref': 'DESIGN.md §6 C02',
 }
 THEOREMS = ['C02.capSites_table', 'C02.wrapSpecs_table', 'C02.cmd_sources_listed', 'C02.private_table', 'C02.step_changes_only_if_allowed', 'C02.admin_gate', 'C02.cap_growth_entitled', 'C02.no_new_owner_step', 'C02.not_granted_owner', 'C02.reload_caps_sub',
             'C02.no_new_owner_reload', 'C02.reload_preserves_inv', 'C02.reloadNoFlush_preserves_inv', 'C02.step_preserves_inv', 'C02.history_safe',
-            'C02.step_preserves_fileOk', 'C02.reloadNoFlush_caps_sub', 'C02.no_new_owner_reloadNoFlush', 'C02.reloadUsersFrom_file', 'C02.reloadNoFlush_owners', 'C02.step_ownInv', 'C02.history_owner_safe', 'C02.permCaps_perm', 'C02.fileOrder_fileOk', 'C02.fileOrder_fileOwn', 'C02.stepEv_ownInv', 'C02.history_owner_safe_ev', 'C02.history_safe_all_ev', 'C02.order_immaterial_when_storable', 'C02.cap_growth_gated', 'C02.step_caps_all', 'C02.history_caps_entitled', 'C02.invert_ok_of_isCapability', 'C02.addCaps_complete', 'C02.removeCaps_complete', 'C02.chanCapSet_saved', 'C02.chanOf_put', 'C02.body_chanShape', 'C02.step_chanAgree_all', 'C02.fileOrder_chanAgree', 'C02.history_chanAgree_ev', 'C02.stepEv_ownInv', 'C02.flushReload_fileOk',
+            'C02.step_preserves_fileOk', 'C02.reloadNoFlush_caps_sub', 'C02.no_new_owner_reloadNoFlush', 'C02.reloadUsersFrom_file', 'C02.reloadNoFlush_owners', 'C02.step_ownInv', 'C02.history_owner_safe', 'C02.permCaps_perm', 'C02.fileOrder_fileOk', 'C02.fileOrder_fileOwn', 'C02.stepEv_ownInv', 'C02.history_owner_safe_ev', 'C02.history_safe_all_ev', 'C02.order_immaterial_when_storable', 'C02.cap_growth_gated', 'C02.step_caps_all', 'C02.history_caps_entitled', 'C02.invert_ok_of_isCapability', 'C02.addCaps_complete', 'C02.removeCaps_complete', 'C02.chanCapSet_saved', 'C02.chanOf_put', 'C02.body_chanShape', 'C02.step_chanAgree_all', 'C02.fileOrder_chanAgree', 'C02.history_chanAgree_ev', 'C02.restartPrep_inv3', 'C02.restartPrep_ownInv', 'C02.uadd_keeps_antiOwner_out', 'C02.stepEv_ownInv', 'C02.flushReload_fileOk',
             'C02.reloadNoFlush_fileOk', 'C02.step_safe_all', 'C02.history_safe_all', 'C02.st0_inv3',
             'C02.st0_inv', 'C02.cfg0_hashSafe']
 TRUSTED = ['Lean 4.33.0 kernel; axioms ⊆ {propext, Classical.choice, Quot.sound}',
@@ -29,10 +29,10 @@ RULE = ('histories of 10–60 events: commands from four non-owner hostmasks (un
         'too wild to be stored, only registers) sent privately or, one in four, in a channel addressed by nick, over a hostile '
         'argument vocabulary (quoted escapes for CR/LF/TAB, blanks around words, owner in every spelling, anti and double-anti '
         'capabilities, channel forms, wildcard hostmasks that overlap without matching), interleaved with flush+reload, reloads '
-        'that read the files as they are (SIGHUP), world.flush, upkeep with supybot.flush on/off; before every reload the '
+        'that read the files as they are (SIGHUP), world.flush, upkeep with supybot.flush on/off, the clock passing timeoutIdentification, and the bot being stopped and started; before every reload the '
         'capability orders of the real files are handed to the model, which accepts them only as permutations of what it saved. '
         'After every step the whole state is compared with the model and the property statement (no new owner, growth only by '
-        'an entitled sender who passed the command gate, nothing gained at reload points) is evaluated on the implementation. '
+        'an entitled sender who passed the command gate, nothing gained at reload or restart points, nobody newly passing the owner test of the bot, channel-op entitlement decided from the stored records alone) is evaluated on the implementation. '
         'non-trivial = the step changed the state, was sent in a channel, or was a reload/flush event; distinct = distinct '
         '(history prefix) input.')
 
@@ -224,7 +224,7 @@ def gen_cmd(r, S=None):
                   'hostmaskAdd', 'hostmaskRemove', 'setPassword', 'setSecure', 'capAdd', 'capAdd', 'capAdd', 'capAdd', 'capRemove',
                   'chanCapAdd', 'chanCapAdd', 'chanCapRemove', 'chanCapSet', 'chanCapUnset', 'chanSetDefault', 'chanSetDefault', 'ignoreAdd',
                   'ignoreRemove', 'defaultCapAdd', 'defaultCapRemove', 'configCaps', 'flushReload', 'flushReload',
-                  'reload', 'reload', 'flushAll', 'upkeep', 'chanDisable', 'chanDisable', 'chanEnable'])
+                  'reload', 'reload', 'flushAll', 'upkeep', 'chanDisable', 'chanDisable', 'chanEnable', 'restart'])
     users = S['users'] if S else []
     live_names = [u['name'] for _, u in users if u['name']] or NAMES
     def name():
@@ -237,7 +237,10 @@ def gen_cmd(r, S=None):
         """(name, cap) of a capability somebody really holds (so that removals can succeed)"""
         pairs = [(u['name'], c) for _, u in users for c in u['caps'] if (',' in c) == chan and u['name']]
         return r.choice(pairs) if pairs and r.random() < 0.7 else None
-    if k == 'register': return (k, [pick(r, NAMES, HOSTILE_NAMES), pw()])
+    if k == 'register':
+        if r.random() < 0.1:        # a name the reader will strip into a name that is taken: the next load stops at that record
+            return (k, [r.choice([' ', '  ', '\t']) + r.choice(live_names), pw()])
+        return (k, [pick(r, NAMES, HOSTILE_NAMES), pw()])
     if k == 'unregister': return (k, [name(), r.choice(PWS + [None])])
     if k == 'changename':
         if r.random() < 0.12:       # a name that would be read back as several lines, by somebody who may rename the account
@@ -359,8 +362,21 @@ def enc_cmd(k, args):
         f = [k, wire.enc(args[0]), '~']
     return '\t'.join(f)
 
+def restart_databases(b):
+    """what a new process does with the three databases: fresh objects (here: the same objects re-initialised, because
+    functions all over the bot hold them as default arguments), nothing left in the reader classes, files read"""
+    ircdb = b.ircdb
+    ircdb.IrcUserCreator.u = None; ircdb.IrcChannelCreator.name = None
+    for db in (ircdb.users, ircdb.ignores, ircdb.channels):
+        fn = db.filename
+        db.__init__()
+        try:
+            db.open(fn)
+        except EnvironmentError:
+            db.filename = fn
+
 def guard_applies(k):
-    return k not in ('flushReload', 'reload', 'flushAll', 'upkeep', 'expire')
+    return k not in ('flushReload', 'reload', 'flushAll', 'upkeep', 'expire', 'restart')
 
 def replied_ok(out):
     for m in out:
@@ -434,8 +450,16 @@ def run_history(b, r, n_steps, out, hist_id):
                 pending.append(('capAdd', [r.choice(['bob', 'opp', 'zed']), r.choice(['admin', 'foo', '-bar'])], actor))
         if k in ('chanCapUnset', 'chanCapSet') and any(not ircdb.isCapability(x) for x in args[1]) and r.random() < 0.5:
             pending.append(('reload', []))      # a refused set/unset, then SIGHUP: nothing may have changed in between
+        if k == 'register' and args[0] != args[0].strip() and not pending and r.random() < 0.6:
+            pending.append(('reload', []))          # … and the load that stops there
         if k in ('register', 'changename') and any(ch in args[0 if k == 'register' else 1] for ch in LINE_BREAKERS) and r.random() < 0.6:
             pending.append(('flushReload', []))     # whatever such a name did, it must not come back as extra lines
+        if k == 'chanCapSet' and not pending and r.random() < 0.3:
+            # the op of #chan makes op (or something else) a channel-wide capability THERE; whoever is op nowhere then tries
+            # the same in a channel nobody has configured
+            args = ['#chan', [r.choice(['op', 'op', 'foo'])]]; forced_actor = ACTORS[2]; actor = ACTORS[2]
+            pending.append(('chanCapAdd', [r.choice(['#other', '#pub', '#beta']), r.choice(['bob', 'opp', 'adm']), r.choice(['op', 'foo'])],
+                            r.choice([ACTORS[0], ACTORS[1]])))
         if k == 'flushReload' and (any(c16.inverse_pair(I16, u['caps']) for _, u in prev['users']) or
                                    any(c16.inverse_pair(I16, c['caps']) for _, c in prev['chans'])):
             # finding C16-capability-inverse-pair: with both '--foo' and '-foo' in a set, which of them survives a
@@ -465,7 +489,10 @@ def run_history(b, r, n_steps, out, hist_id):
             ircdb.time.offset += TIMEOUT + 5
             ok = True
             guard = None
-        elif k == 'reload':
+        elif k in ('reload', 'restart'):
+            if k == 'restart':
+                # the bot is stopped (world.flush() on the way out) and started again (Ev.restart)
+                b.world.flush()
             # SIGHUP / 'config reload' (Config._reload): the files are read as they are, nothing is flushed first.
             # The order in which the capability sets stand in the files is told to the model (which accepts it
             # only as a permutation of what it has saved: a relation checked in Lean, C02.St.fileOrderOk)
@@ -474,12 +501,17 @@ def run_history(b, r, n_steps, out, hist_id):
                   if len(caps) > 1 and sorted(caps) != DEFAULT_CHAN['caps']]
             if os.environ.get('C02_REVERSE_ORDER'):     # self-test of the harness: a wrong order must be noticed
                 uo = [(key, caps[::-1]) for key, caps in uo]; co = [(key, caps[::-1]) for key, caps in co]
-            drv.append('order\t%s\t%s' % (';'.join('%s=%s' % (key, c16.encL('+', caps)) for key, caps in uo) or '-',
-                                           c16.enc_entries(lambda cs: c16.encL('+', cs), co)))
-            kinds.append('order')
+            order_fields = '%s\t%s' % (';'.join('%s=%s' % (key, c16.encL('+', caps)) for key, caps in uo) or '-',
+                                       c16.enc_entries(lambda cs: c16.encL('+', cs), co))
+            if k == 'reload':
+                drv.append('order\t' + order_fields)
+                kinds.append('order')
             inv_pair = any(c16.inverse_pair(I16, caps) for _, caps in uo + co)
             ircdb.log.clear()
-            ircdb.users.reload(); ircdb.ignores.reload(); ircdb.channels.reload()
+            if k == 'restart':
+                restart_databases(b)
+            else:
+                ircdb.users.reload(); ircdb.ignores.reload(); ircdb.channels.reload()
             ok = True
             guard = None
         else:
@@ -560,7 +592,7 @@ def run_history(b, r, n_steps, out, hist_id):
                 msgs.append('account %d holds -owner (UserCapabilitySet refuses it: whoever holds it passes every owner test)' % i)
         if new_owners:
             msgs.append('account(s) %s became owner through %s %r by %s' % (sorted(new_owners), k, args, actor))
-        if k in ('flushReload', 'reload'):
+        if k in ('flushReload', 'reload', 'restart'):
             # a channel capability (one that gives, not an anti-capability) appears at a reload point only if memory
             # and channels.conf had come apart (a command that changed the live record and then did not save it)
             cbefore = {b.ircutils.toLower(n): set(c_['caps']) for n, c_ in prev['chans']}
@@ -575,8 +607,8 @@ def run_history(b, r, n_steps, out, hist_id):
             gained = set(u['caps']) - old
             if not gained:
                 continue
-            if k in ('flushReload', 'reload'):
-                msgs.append('account %d gained %s at %s' % (i, sorted(gained), 'flush+reload' if k == 'flushReload' else 'a reload without flush (SIGHUP / config reload)'))
+            if k in ('flushReload', 'reload', 'restart'):
+                msgs.append('account %d gained %s at %s' % (i, sorted(gained), {'flushReload': 'flush+reload', 'restart': 'a restart (flush, new process, load)'}.get(k, 'a reload without flush (SIGHUP / config reload)')))
             elif k not in ('capAdd', 'chanCapAdd'):
                 msgs.append('account %d gained %s through %s' % (i, sorted(gained), k))
             elif guard is None or not guard[2]:
@@ -610,17 +642,27 @@ def run_history(b, r, n_steps, out, hist_id):
         if k in ('capAdd', 'capRemove', 'chanCapAdd', 'chanCapRemove') and not ok and \
                 c16.enc_users(c16.canon_users(cur['users'])) != c16.enc_users(c16.canon_users(prev['users'])):
             tags.append('goodrun-unacknowledged-change')
-        if k == 'reload':
+        if k in ('reload', 'restart'):
             tags.append('reload-with-order-event' if (uo or co) else 'reload-no-sets')
             if inv_pair:
                 tags.append('reload-inverse-pair-state')
-        if k in ('flushReload', 'reload') and getattr(ircdb.log, 'exc', None):
-            tags.append('load-stopped')        # no longer a run condition: history_safe_all covers loads that stop
+        if k in ('flushReload', 'reload', 'restart') and getattr(ircdb.log, 'exc', None):
+            tags.append('load-stopped')
+        if k in ('flushReload', 'reload', 'restart') and ircdb.IrcUserCreator.u is not None:
+            tags.append('users-load-stopped')        # no longer a run condition: history_safe_all covers loads that stop
+            # a load that stopped, then a revocation, then the bot is stopped and started: the revocation must hold
+            held = [(u_['name'], c_) for _i, u_ in cur['users'] for c_ in u_['caps'] if u_['name'] and ',' not in c_ and c_ != 'owner']
+            if held and not pending and ircdb.IrcUserCreator.u is not None and r.random() < 0.8:
+                n_, c_ = r.choice(held)
+                pending.append(('capRemove', [n_, c_], ACTORS[3]))
+                pending.append(('restart', []))
         c = Case({'history': hist_id, 'step': si, 'timeoutIdentification': tmo, 'trail': list(trail)}, impl=('1' if ok else '0') + '\t' + enc_state(cur),
-                 oracle_ok=(not msgs), oracle_msg='; '.join(msgs), kind='history', tags=tuple(tags) if (changed or where or k in ('flushReload', 'reload', 'flushAll', 'upkeep', 'expire')) else ())
+                 oracle_ok=(not msgs), oracle_msg='; '.join(msgs), kind='history', tags=tuple(tags) if (changed or where or k in ('flushReload', 'reload', 'flushAll', 'upkeep', 'expire', 'restart')) else ())
         steps.append(c)
-        if k == 'expire':
-            drv.append('expire')
+        if k == 'restart':
+            drv.append('restart\t' + order_fields)      # the orders the files were just written in are part of the event
+        elif k == 'expire':
+            drv.append(k)
         elif where:
             drv.append('cmdin\t%s\t%s\t%s' % (wire.enc(where), wire.enc(actor), enc_cmd(k, args)))
         else:
@@ -714,6 +756,8 @@ def replay(ctx, path):
         elif k == 'reload':
             b.ircdb.users.reload(); b.ircdb.ignores.reload(); b.ircdb.channels.reload()
             print('reload without flush')
+        elif k == 'restart':
+            b.world.flush(); restart_databases(b); print('restart: world.flush(), new process, databases read')
         elif k == 'flushAll':
             b.world.flush(); print('world.flush()')
         elif k == 'upkeep':
